@@ -29,7 +29,7 @@ ASSUMPTIONS = [
 ]
 COMPONENTS = {"real": ["Detector.save / load / to_asdf / from_asdf / to_dict / from_dict for CCD, CMOS, MKID, APD", "pyxel.models.load_detector / save_detector inside run_mode", "asdf on a real scratch filesystem"], "stub": ["HDF5 backend: not available"]}
 BUDGET = {"quick": {"n": 400, "wall": 100, "determinism": 4}, "thorough": {"n": 50000, "wall": 1500, "determinism": 12}}
-REQUIRED_REACH = ["type:CCD", "type:CMOS", "type:MKID", "type:APD", "photon3d", "clusters", "scene", "data", "phase", "load_in_pipeline", "load_repeated_in_one_run", "roundtrips", "hdf5_not_run", "empty_containers"]
+REQUIRED_REACH = ["type:CCD", "type:CMOS", "type:MKID", "type:APD", "photon3d", "clusters", "scene", "data", "phase", "load_in_pipeline", "load_repeated_in_one_run", "data_groups_without_variables", "roundtrips", "hdf5_not_run", "empty_containers"]
 
 WRITES = ["photon", "charge", "pixel", "signal", "image", "scene", "data", "clusters"]
 
@@ -43,6 +43,8 @@ def generate(rng, tier):
         subset[subset.index("photon")] = "photon3d"
     if det["type"] == "MKID" and rng.random() < 0.6:
         subset.append("phase")
+    if rng.random() < 0.25:
+        subset.append("data_empty")  # processed-data groups that hold no data variable
     models = []
     k = 0
     pool = list(subset)
@@ -116,13 +118,13 @@ def execute(scn):
     dtype = scn["detector"]["type"]
     stats["type:" + dtype] = 1
     written = set(scn["written"])
-    for key, names in (("photon3d", {"photon3d"}), ("clusters", {"clusters"}), ("scene", {"scene"}), ("data", {"data"}), ("phase", {"phase"})):
+    for key, names in (("photon3d", {"photon3d"}), ("clusters", {"clusters"}), ("scene", {"scene"}), ("data", {"data"}), ("data_groups_without_variables", {"data_empty"}), ("phase", {"phase"})):
         if written & names:
             stats[key] = 1
     if len(written) <= 1:
         stats["empty_containers"] = 1
     stats["hdf5_not_run"] = 1
-    feat = dtype + "+" + "+".join(sorted(written & {"photon3d", "clusters", "scene", "data", "phase"}) or ["plain"])
+    feat = dtype + "+" + "+".join(sorted(written & {"photon3d", "clusters", "scene", "data", "data_empty", "phase"}) or ["plain"])
     h = hashlib.sha256()
 
     def bad(clause, sig, detail):
@@ -228,7 +230,7 @@ def execute(scn):
         if v["signature"] not in seen_s:
             seen_s.add(v["signature"])
             uniq.append(v)
-    special = written & {"photon3d", "clusters", "scene", "data", "phase"}
+    special = written & {"photon3d", "clusters", "scene", "data", "data_empty", "phase"}
     return {
         "violations": uniq,
         "stats": stats,
